@@ -5,6 +5,7 @@ import (
 	"errors"
 	"fmt"
 	"net"
+	"os"
 	"runtime/debug"
 	"strings"
 	"sync"
@@ -608,6 +609,9 @@ func (pw *PgWorld) applyStreamFaults(s *stream, conns []*SimConn) {
 func (pw *PgWorld) recoverActor(who string) {
 	if r := recover(); r != nil {
 		pw.Panics = append(pw.Panics, fmt.Sprintf("%s: %v", who, r))
+		if os.Getenv("VERIF_ACTOR_STACK") != "" {
+			fmt.Fprintf(os.Stderr, "ACTOR PANIC %s: %v\n%s\n", who, r, debug.Stack())
+		}
 	}
 }
 
@@ -639,7 +643,7 @@ func runPgClient(conn net.Conn, script []Stmt, results []StmtResult) error {
 		return err
 	}
 	for {
-		msg, err := fe.Receive()
+		msg, err := safeReceive(fe.Receive)
 		if err != nil {
 			return fmt.Errorf("startup: %w", err)
 		}
@@ -673,7 +677,7 @@ func runPgClient(conn net.Conn, script []Stmt, results []StmtResult) error {
 			return err
 		}
 		for {
-			msg, err := fe.Receive()
+			msg, err := safeReceive(fe.Receive)
 			if err != nil {
 				return fmt.Errorf("statement %d: %w", i, err)
 			}
